@@ -267,9 +267,9 @@ Proof.
   intros (r & (n0 & Hu0 & <- & _) & Hp). apply (prefix_root2 widen_roots n0 n Hu0) in Hp. apply Hp.
 Qed.
 
-Theorem autoload_complete born st t k a s :
+Lemma autoload_cases (born : N) st t k a s :
   uniq_ctx st -> acyclic st -> (forall n, a <> RName n) -> In s (discover t k) -> sf_auto s = true ->
-  In (sf_name s, sf_gen s) (r_ev (reload all_off born st t k a))
+  In (sf_set_force true s) (load_list (p_files (plan all_off st (discover t k) a)))
   \/ (exists c, In c st /\ c_name c = sf_name s /\ in_ctx_roots (c_name c) = true
         /\ ~ Discard st (discover t k) a (sf_name s) /\ ~ Forced0 st (discover t k) a (sf_name s)).
 Proof.
@@ -278,7 +278,7 @@ Proof.
   destruct (plan_exact st fs a Hac (discover_fresh t k) (discover_uniq t k) (ctx_all_uniq st Hu) Eok) as (_ & Hsame & Hd & HF).
   destruct (same_files_fwd _ _ s Hsame Hs) as (b & Hs').
   destruct b.
-  - left. apply (reload_reexecutes all_off born st t k a (sf_set_force true s) Eok). apply load_list_In. cbn. auto.
+  - left. apply load_list_In. cbn. auto.
   - right. assert (HnF : ~ Forced st fs a (sf_set_force false s)).
     { intros H. apply (HF _ Hs') in H. discriminate. }
     assert (Hroot : InWidened st fs a n -> False).
@@ -300,6 +300,16 @@ Proof.
     + exfalso. apply HnF0. destruct a as [| |m]; [| |exfalso; apply (Ha m); reflexivity]; unfold Forced0.
       * exists s. split; [exact Hfind|]. right. split; [exact Hnl|exact Hau].
       * exact Hdisk.
+Qed.
+
+Theorem autoload_complete born st t k a s :
+  uniq_ctx st -> acyclic st -> (forall n, a <> RName n) -> In s (discover t k) -> sf_auto s = true ->
+  In (sf_name s, sf_gen s) (r_ev (reload all_off born st t k a))
+  \/ (exists c, In c st /\ c_name c = sf_name s /\ in_ctx_roots (c_name c) = true
+        /\ ~ Discard st (discover t k) a (sf_name s) /\ ~ Forced0 st (discover t k) a (sf_name s)).
+Proof.
+  intros Hu Hac Ha Hs Hau. destruct (autoload_cases born st t k a s Hu Hac Ha Hs Hau) as [H|H]; [left|right; exact H].
+  apply (reload_reexecutes all_off born st t k a (sf_set_force true s) (plan_ok_full all_off st (discover t k) a Ha) H).
 Qed.
 
 (* ---------- histories: the per-reload theorems hold at every step of every sequence of reloads ---------- *)
@@ -342,4 +352,30 @@ Proof.
     + intros c Hc Hr Hs Hd Hf. apply untouched_spec; assumption.
     + intros Ha c' Hc'. apply (post_state_current born st (rs_tree s) (rs_cfg s) a Hu Hac Ha). exact Hc'.
   - apply IH; [|exact Hrest]. apply ping_uniq. apply (reload_origin all_off born st (rs_tree s) (rs_cfg s) a Hu).
+Qed.
+
+(* C10, the exact re-execution set: whatever a reload executes is an auto-loaded file the plan forces, or a file an
+   import statement resolved to (module_import only loads what is not loaded: see C10_untouched); with
+   C10_reexecuted: executed = forced auto-loaded files + lazily imported modules, nothing else *)
+Definition lazily_imported (dv : deviations) (t : tree) (e : event) : Prop :=
+  exists sn sr i cs cnd f, candidates dv sn sr i = Some cs /\ In cnd cs /\ tree_get t (cd_path cnd) = Some f /\ e = (cd_name cnd, f_gen f).
+
+Theorem reload_events_origin dv born st t k a e :
+  In e (r_ev (reload dv born st t k a)) ->
+  (exists s, In s (load_list (p_files (plan dv st (discover t k) a))) /\ e = (sf_name s, sf_gen s)) \/ lazily_imported dv t e.
+Proof.
+  unfold reload. set (pl := plan dv st (discover t k) a). destruct (p_ok pl); cbn [negb r_ev]; [|intros []].
+  set (L := load_list (p_files pl)).
+  set (E := fun e : event => (exists s, In s L /\ e = (sf_name s, sf_gen s)) \/ lazily_imported dv t e).
+  assert (Hnew : forall cnd f self_name self_rel i cs, candidates dv self_name self_rel i = Some cs -> In cnd cs ->
+             tree_get t (cd_path cnd) = Some f -> E (cd_name cnd, f_gen f)).
+  { intros cnd f sn sr i cs Ec Hc Hf. right. exists sn, sr, i, cs, cnd, f. auto. }
+  assert (Hfold : forall l w, incl l L -> all_E E (w_ev w) -> all_E E (w_ev (fold_left (load_one dv t born) l w))).
+  { induction l as [|s l IH]; intros w Hl Hw; cbn [fold_left]; [exact Hw|].
+    apply IH; [intros x Hx; apply Hl; cbn; auto|]. unfold load_one.
+    assert (Hev : all_E E (w_ev w ++ [(sf_name s, sf_gen s)])).
+    { intros x Hx. apply in_app_or in Hx. destruct Hx as [Hx|[<-|[]]]; [apply Hw; exact Hx|]. left. exists s. split; [apply Hl; cbn; auto|reflexivity]. }
+    pose proof (exec_body_E dv t E Hnew (exec_fuel t) born false (sf_name s) (sf_rel s) (sf_imps s) (st_del (w_st w) (sf_name s)) _ Hev) as Hx.
+    destruct (exec_body _ dv t born false (sf_name s) (sf_rel s) (sf_imps s) _ _); cbn in Hx |- *; [exact Hx|exact Hx|exact Hev]. }
+  intros He. apply (Hfold L {| w_st := delete_phase st (p_del pl); w_ev := []; w_fuel := true |} (incl_refl _)); [intros x []|exact He].
 Qed.
